@@ -10,6 +10,7 @@ import (
 	"os"
 	"path"
 	"runtime/debug"
+	"slices"
 	"sync"
 	"time"
 
@@ -102,13 +103,26 @@ func dedupLoop(configArgs map[string]string, w *fsnotify.Watcher, completedChann
 		regenerateMutex.Lock()
 		defer regenerateMutex.Unlock()
 
-		dirsToWatch := generateInWatchMode(configArgs)
-		for _, dir := range dirsToWatch {
-			// adding a directory that is already watched is a no-op
-			if err := w.Add(dir); err != nil {
-				completedChannel <- err
+		for {
+			dirsToWatch := generateInWatchMode(configArgs)
+			watched := w.WatchList()
+			newlyWatched := false
+			for _, dir := range dirsToWatch {
+				if !slices.Contains(watched, dir) {
+					newlyWatched = true
+				}
+				// adding a directory that is already watched is a no-op
+				if err := w.Add(dir); err != nil {
+					completedChannel <- err
+					return
+				}
+			}
+
+			if !newlyWatched {
 				return
 			}
+			// The files of a directory that was not yet watched while they were
+			// being read may have changed since: generate again now that it is.
 		}
 	}
 
